@@ -158,4 +158,15 @@ CHECKS = {
           "divisions and tuplets, pickups, grace notes, ties, groups x modes x policies x minimum_ppq x velocity.",
   "note": "Trusted: vmon/refmodels/timemaps.py, mido. time_sig_change rewrites signatures by design (positions judged for the other policies); files with a 0/x signature are not re-imported.",
  },
+ "C03": {
+  "technique": "post-condition hook on the real save_musicxml: reload + canonical fingerprint on the statement's attribute list, independent MusicXML interpreter for the sounding notes, byte-for-byte re-export",
+  "text": "For every save_musicxml call the produced bytes are re-loaded with load_musicxml and compared with the argument on "
+          "exactly the attributes the statement lists (parts/groups, measures, divisions, signatures, clefs, every note's id, "
+          "onset, duration, spelling, voice, staff, symbolic duration, ties, articulations, fingering, stem, fermata, slurs, "
+          "tuplets, dynamics, wedges, words, tempo, repeats, endings, barline fermatas); a from-scratch MusicXML reader "
+          "(divisions, backup/forward, chords, ties, grace) must find the argument's sounding notes in exact quarters; the "
+          "re-loaded score is saved again and compared byte for byte. Workload: generated scores in the importer's image, all "
+          "MusicXML fixtures, hostile classes (under-full measures, unequal chords inside a voice).",
+  "note": "Trusted: vmon/refmodels/musicxml_reader.py, timemaps.py, lxml. Open known findings: Words not written, under-full measure shrinks, voice reassignment on intra-voice overlap, zero-length wedge, <print> gained by scores without page/system objects.",
+ },
 }
